@@ -388,8 +388,10 @@ def execute(ctx, case):
 
     for idx in range(ncalls):
         ff = faultio.FaultFile(idx, sub)
-        _, crashed = write_records(ff, records, carry_on=False)
+        ok, crashed = write_records(ff, records, carry_on=False)
         ondisk = ff.getvalue()
+        if ff.seeks or ff.truncates:
+            ctx.event("wfault_writer_repositioned_or_cut_its_output")
         ctx.ev()
         ctx.event("wfault:" + sub)
         if not ff.fired:
@@ -403,6 +405,11 @@ def execute(ctx, case):
             ctx.violation(None, "bytes on disk after a write fault are not a valid prefix of the format", detail={"call": idx, "mode": sub, "error": str(e)[:300]})
             continue
         cnt = len(recs_on_disk)
+        acknowledged = sum(1 for g in ok if g)
+        if sub != "silent-short" and cnt < acknowledged:
+            # a record whose write() had returned before the failing call is completely written: it must still be there
+            ctx.violation(None, "write fault %s at call %d: %d records had been written (write() returned) before the failing call, only %d are in the file afterwards" % (sub, idx, acknowledged, cnt),
+                          detail={"call": idx, "mode": sub, "acknowledged": acknowledged, "in_file": cnt, "bytes_on_disk": len(ondisk), "seeks": ff.seeks, "truncates": ff.truncates})
         if ondisk != data[: len(ondisk)]:
             ctx.note_add("wfault_bytes_differ_from_clean_run")
         for rsub in ("buffered", "reader"):
